@@ -17,11 +17,12 @@ def ends(name, suffix):
 class LockUser:
     """One function that takes the load lock (through find_file or lock_loading)."""
 
-    def __init__(self, prog, body, S):
+    def __init__(self, prog, body, S, acq=None):
         self.prog = prog
         self.body = body
         self.S = S
-        self.find_sites = [bi for bi, t in body.calls() if ends(mir.callee_name(t), FIND_FILE)]
+        acq = acq if acq is not None else acquirers(prog)
+        self.find_sites = [bi for bi, t in body.calls() if mir.callee_name(t) in acq and not ends(mir.callee_name(t), LOCK)]
         self.lock_sites = [bi for bi, t in body.calls() if ends(mir.callee_name(t), LOCK)]
         self.unlock_sites = [bi for bi, t in body.calls() if ends(mir.callee_name(t), UNLOCK)]
         self.parse_sites = [bi for bi, t in body.calls() if ends(mir.callee_name(t), PARSE)]
@@ -101,14 +102,40 @@ class LockUser:
         return False
 
 
+_ACQ = {}
+
+
+def acquirers(prog):
+    """The functions that hand a locked file to their caller: lock_loading itself, and (transitively) every
+    function that calls one of them, never unlocks, and returns a SourceFile (find_file, and any helper
+    find_file's work is split into).  Their callers are the lock *users* the rules look at."""
+    key = id(prog)
+    if key in _ACQ:
+        return _ACQ[key]
+    acq = {d for d in prog.bodies if ends(d, LOCK)}
+    changed = True
+    while changed:
+        changed = False
+        for d, b in prog.bodies.items():
+            if d in acq or ends(d, UNLOCK) or SOURCEFILE_TY not in (b.ret or ""):
+                continue
+            names = [mir.callee_name(t) for bi, t in b.calls()]
+            if any(n in acq for n in names) and not any(ends(n, UNLOCK) for n in names):
+                acq.add(d)
+                changed = True
+    _ACQ[key] = acq
+    return acq
+
+
 def lock_users(prog):
     S = sym.Sym(prog)
     out = []
+    acq = acquirers(prog)
     for b in sorted(prog.bodies.values(), key=lambda b: b.def_):
-        u = LockUser(prog, b, S)
+        u = LockUser(prog, b, S, acq)
         if u.find_sites or u.lock_sites or u.unlock_sites:
             # the protocol's own implementation is not a user
-            if any(b.def_.endswith(x) for x in (FIND_FILE, LOCK, UNLOCK)):
+            if b.def_ in acq or ends(b.def_, UNLOCK):
                 continue
             out.append(u)
     return S, out
